@@ -811,7 +811,10 @@ def _after_spawn_failed(V, n, pid):
 
 
 def _sigkill_intended(s, i):
-    return False
+    """the before_signal call at line i of step s belongs to a delivery of SIGKILL: a `signal` or `kill` request that names
+    signal 9 (the escalation inside kill_process is recognised by its own oracle in c03)"""
+    sg = s.props().get("signum") if s.kind() == "req" else None
+    return s.cmd() in ("signal", "kill") and isinstance(sg, int) and not isinstance(sg, bool) and sg == 9
 
 
 def _spawned_for(V, n, pid):
